@@ -233,7 +233,7 @@ pub fn datagrams(fx: &Fixture, tier: Tier) -> Vec<(String, Vec<u8>)> {
                 }
             }
         }
-        let step = if g.len() > 200 { tier.pick(41, 7) } else { 1 };
+        let step = if crate::report::deep() { 1 } else if g.len() > 200 { tier.pick(41, 7) } else { 1 };
         for n in (0..g.len()).step_by(step) {
             v.push((format!("genuine {} truncated to {}", kind, n), g[..n].to_vec()));
         }
@@ -580,6 +580,7 @@ pub fn token_case(b: &[u8]) -> (u64, Option<Violation>) {
 pub fn run(tier: Tier) -> i32 {
     let mut rep = Report::new("C07", tier);
     // the thorough bounds of this property take seconds: the quick tier runs them too
+    crate::report::note_tier(tier);
     let tier = { let _ = tier; Tier::Thorough };
     rep.rule("sweep: hostile datagrams x protocol states. Datagrams: all 256 prefix bytes x 20 lengths (0..1400, around every parser threshold) x 3 fills; every genuine datagram kind of a recorded session (request, challenge, response, keep-alive, payload, disconnect both ways, denied) with its prefix replaced by each other value, its sequence replaced by {0,1,255,256,511,512,2^64-257..2^64-1} in minimal and 8-byte form, truncated to every length, extended; packets of another session and another protocol id. States: server with source address unknown / pending / connected (second client connected throughout, one second after the last genuine traffic); client requesting / responding / connected / disconnected. Oracle: no unwind, ServerResult::None / no payload, hook snapshot identical (tables, timers, replay window, counters), genuine follow-up still accepted. Tokens: every truncation, address count x first/last type byte products, timestamp/timeout extremes through ConnectToken::read, then NetcodeClient::new + updates");
     rep.assume("a datagram of request type whose body equals a genuine valid request is authentic regardless of its prefix high nibble and is exempt from the no-change clause");
@@ -735,6 +736,7 @@ pub fn replay(j: &J) -> i32 {
         Some("thorough") => Tier::Thorough,
         _ => Tier::Quick,
     };
+    crate::report::note_tier(tier);
     let tier = { let _ = tier; Tier::Thorough };
     let v = match j.get("kind").and_then(|k| k.as_str()) {
         Some("token") => {
